@@ -11,7 +11,7 @@ RULE = ("(a) random interior (s,z) per cone structure incl. mnl, then 1..30 upda
         "(c) conelp/coneqp solves with an observing kktsolver.  class signature = monitor x cone shape class x factory x storage x history class")
 ASSUMPTIONS = ["W is reconstructed from (dnl, d, beta, v, r) by its documented definition; di, dnli, rti are checked against it",
                "identities are measured relative to the norms of the factors (threshold 1e-9 for random scalings, scaled by the condition of W in converging histories)"]
-REQUIRED_COUNTERS = ["a.compute", "a.update", "a.history>=10", "b.structurally-sparse", "b.ldl", "b.ldl2", "b.chol", "b.chol2", "b.qr", "b.chol2.singular-branch",
+REQUIRED_COUNTERS = ["a.compute", "a.update", "a.history>=10", "b.structurally-sparse", "b.structurally-sparse-singular-S", "b.ldl", "b.ldl2", "b.chol", "b.chol2", "b.qr", "b.chol2.singular-branch",
                      "b.chol2.refactor", "b.sparse", "b.mnl", "b.H", "b.H-lower-storage", "b.interleaved", "c.W-observed", "c.frame-identity-checked",
                      "c.conelp", "c.coneqp"]
 
@@ -186,26 +186,39 @@ def run(ctx):
         else:
             ctx.count("generator.none"); return
         structural = name != "qr" and rng.random() < 0.3
+        dropped = []
         if structural:
             # genuinely sparse pattern (structural zeros, n up to 12): sparse Cholesky orderings become non-trivial
             n = rng.randint(5, 12); p = rng.randint(0, 3); extra = rng.randint(1, n // 2 + 1)
             dims = Dims(n + extra)
             ctx.count("b.structurally-sparse")
+            if rng.random() < 0.4:
+                # ... and G'W^-2 G singular: some variables occur in no inequality row, only in (sparse) equality rows,
+                # so that the pattern of A'A is NOT contained in the pattern of G'G (kkt_chol2's S + A'A fall-back)
+                kdrop = rng.randint(1, 3)
+                dropped = rng.sample(range(n), kdrop)
+                p = rng.randint(kdrop, kdrop + 1)
+                extra = 0
+                dims = Dims(n - kdrop + rng.randint(0, 2))
+                ctx.count("b.structurally-sparse-singular-S")
         mnl = dims.mnl
         cdims = Dims(dims.l, dims.q, dims.s)       # linear part
         # GG = [Df; G] of full column rank together with A and H
         for _ in range(30):
             if structural:
-                rows = [[-1.0 if j == i else 0.0 for j in range(n)] for i in range(n)]
-                for _e in range(dims.l - n):
+                kept = [i for i in range(n) if i not in dropped]
+                rows = [[-1.0 if j == i else 0.0 for j in range(n)] for i in kept]
+                for _e in range(dims.l - len(kept)):
                     r_ = [0.0] * n
-                    for j in rng.sample(range(n), rng.randint(2, 3)): r_[j] = rng.gauss(0, 1)
+                    for j in rng.sample(kept, min(len(kept), rng.randint(2, 3))): r_[j] = rng.gauss(0, 1)
                     rows.append(r_)
                 rng.shuffle(rows)
-                GGp = np.array(rows)
+                GGp = np.array(rows).reshape(len(rows), n)
                 A = np.zeros((p, n))
                 for i in range(p):
                     for j in rng.sample(range(n), rng.randint(2, 3)): A[i, j] = rng.gauss(0, 1)
+                    if i < len(dropped):
+                        A[i, dropped[i]] = rng.choice([-1, 1]) * rng.uniform(0.5, 2.0)
             else:
                 GGp = gp.rand_sv_matrix(rng, dims.Np, n)
                 A = gp.rand_sv_matrix(rng, p, n, 0.5, 2.0)
